@@ -5,6 +5,11 @@
 //     packages (package level and function local), evaluated with go/constant; decimals as exact
 //     rationals num/den read from the literal text.
 //   - Generated/Tables.lean : selected literal tables (array/slice composite literals of integers).
+//   - Generated/Layout.lean : the state space of the code: for every struct type of the modelled packages its
+//     fields (name : type, in source order), for every source file the struct types it declares and the
+//     package-level variables it declares.  Props/CxxLayout.lean asserts these against what the hand Models
+//     were written for: a new field (a cache, a memo, a scratch buffer), a new type or a new package-level
+//     variable is state the Model does not describe, and breaks that obligation.
 //   - digests.json          : a normalised-source digest of every function (comments and
 //     formatting removed); a changed digest never fails a check, it enlarges the correspondence budget.
 //
@@ -105,7 +110,7 @@ func main() {
 	flag.Parse()
 
 	fset := token.NewFileSet()
-	var lines []string
+	var lines, layout []string
 	digests := map[string]string{}
 	seen := map[string]bool{}
 
@@ -160,6 +165,52 @@ func main() {
 				os.Exit(1)
 			}
 			ps = append(ps, parsed{n, f})
+		}
+		for _, p := range ps {
+			var types, vars []string
+			for _, d := range p.f.Decls {
+				gd, ok := d.(*ast.GenDecl)
+				if !ok {
+					continue
+				}
+				for _, sp := range gd.Specs {
+					switch x := sp.(type) {
+					case *ast.TypeSpec:
+						st, ok := x.Type.(*ast.StructType)
+						if !ok {
+							continue
+						}
+						types = append(types, x.Name.Name)
+						var fields []string
+						for _, f := range st.Fields.List {
+							t := exprString(fset, f.Type)
+							if len(f.Names) == 0 {
+								fields = append(fields, "(embedded) : "+t)
+							}
+							for _, n := range f.Names {
+								fields = append(fields, n.Name+" : "+t)
+							}
+						}
+						layout = append(layout, fmt.Sprintf("def %s : List String := %s", leanIdent(pkg, x.Name.Name), leanStrings(fields)))
+					case *ast.ValueSpec:
+						if gd.Tok == token.VAR {
+							for _, n := range x.Names {
+								if n.Name == "_" {
+									continue
+								}
+								t := ""
+								if x.Type != nil {
+									t = " : " + exprString(fset, x.Type)
+								}
+								vars = append(vars, n.Name+t)
+							}
+						}
+					}
+				}
+			}
+			base := strings.TrimSuffix(p.name, ".go")
+			layout = append(layout, fmt.Sprintf("def types_%s : List String := %s", leanIdent(pkg, base), leanStrings(types)))
+			layout = append(layout, fmt.Sprintf("def vars_%s : List String := %s", leanIdent(pkg, base), leanStrings(vars)))
 		}
 		// package-level constants first (two passes so forward references resolve)
 		for pass := 0; pass < 2; pass++ {
@@ -256,11 +307,33 @@ func main() {
 	if *out != "" {
 		os.MkdirAll(*out, 0o755)
 		writeIfChanged(filepath.Join(*out, "Consts.lean"), b.String())
+		var l strings.Builder
+		l.WriteString("/-! GENERATED by /verif/extract from /repo — do not edit; rewritten on every check run.\n    Struct fields, struct types per file and package-level variables per file of the modelled packages. -/\n")
+		l.WriteString("namespace AlgoVerif.Generated.Layout\n\n")
+		for _, x := range layout {
+			l.WriteString(x + "\n")
+		}
+		l.WriteString("\nend AlgoVerif.Generated.Layout\n")
+		writeIfChanged(filepath.Join(*out, "Layout.lean"), l.String())
 	}
 	if *dig != "" {
 		j, _ := json.MarshalIndent(digests, "", " ")
 		writeIfChanged(*dig, string(j))
 	}
+}
+
+func exprString(fset *token.FileSet, e ast.Expr) string {
+	var b bytes.Buffer
+	printer.Fprint(&b, fset, e)
+	return strings.Join(strings.Fields(b.String()), " ")
+}
+
+func leanStrings(xs []string) string {
+	qs := make([]string, len(xs))
+	for i, x := range xs {
+		qs[i] = "\"" + strings.NewReplacer("\\", "\\\\", "\"", "\\\"").Replace(x) + "\""
+	}
+	return "[" + strings.Join(qs, ", ") + "]"
 }
 
 func writeIfChanged(path, content string) {
